@@ -121,7 +121,7 @@ func scannerGuard(c *Ctx, r *Report) {
 			}
 			n++
 			node := fg.NodeOf(call.Pos())
-			if hasDoneFalse(fg.FactsAt(node)) {
+			if hasDoneFalse(fg.FactsAtPos(call.Pos())) {
 				r.OK(rule, fi.Name, exprStr(call), c.Pos(call.Pos()), "guard: dominated by !s.done() with no call in between")
 				return true
 			}
